@@ -234,6 +234,8 @@ class Builder:
             return getattr(self._ce(args[0]).dt, op[3:])()
         if op in ("sum", "mean", "min", "max", "any", "all", "count"):
             return getattr(self._ce(args[0]), op)(**ctx)
+        if op == "str.join":
+            return self._ce(args[0]).str.join(*args[1:], **ctx)
         if op == "count_star":
             return pdt.count(**ctx)
         if op == "row_number":
